@@ -388,7 +388,10 @@ struct Frame<NT_, T_, std::integer_sequence<int, N...>, std::integer_sequence<in
     }
 };
 
-template<class F> struct Register { Register() { registry().push_back(new F()); } };
-template<class F> struct RegisterSeed { RegisterSeed() { auto* f = new F(); f->seed_only = true; registry().push_back(f); } };
+// a frame's constructor builds an ordinary parser from an ordinary (dummy) grammar: if that throws, the tree under test cannot construct a valid parser;
+// the message is kept and reported by main() as a failure of the real code in phase "frame-construction"
+std::string& frame_ctor_failure();
+template<class F> struct Register { Register() { try { registry().push_back(new F()); } catch (const std::exception& e) { if (frame_ctor_failure().empty()) frame_ctor_failure() = e.what(); } catch (...) { if (frame_ctor_failure().empty()) frame_ctor_failure() = "unknown exception"; } } };
+template<class F> struct RegisterSeed { RegisterSeed() { try { auto* f = new F(); f->seed_only = true; registry().push_back(f); } catch (const std::exception& e) { if (frame_ctor_failure().empty()) frame_ctor_failure() = e.what(); } catch (...) { if (frame_ctor_failure().empty()) frame_ctor_failure() = "unknown exception"; } } };
 
 } // namespace eg
